@@ -681,7 +681,7 @@ class _FtpModelFile(io.RawIOBase):
                 raise IOError("554 REST position > file size")
             self.rc = [srv.observe()[self.pos:], 0]
         if size is None:
-            return b""
+            size = -1
         stream, k = self.rc
         chunk = stream[k:] if size < 0 else stream[k:k + size]
         now = srv.observe()
@@ -1014,6 +1014,83 @@ def buffer_cases(kind, layer, archive, tier, seed):
     return out, stats
 
 
+# ------------------------------------------------------------------------------------------
+# Chunk-size block: every size-taking file-object call with sizes at and around the transfer block sizes
+# (fs.constants.DEFAULT_CHUNK_SIZE, which FTPFile.read/write/truncate loop over, and ftplib's 8192): truncate(n)
+# growing / shrinking the file by c-1, c, c+1, 2c+5; read(n) and seek targets across the boundary on contents of
+# c-1, c, c+1, 2c+5 bytes; write() of ONE piece of c-1, c, c+1, 2c+5 bytes followed by tell(), seek(0, 1), another
+# write, seek(0, 1), truncate().  Oracle: the io object of the same layer.  A few dozen sequences per kind.
+
+CHUNK_KINDS = ("ftp", "ftpbuf", "ftptext", "ftplist", "mem", "membuf", "memtext", "osfs", "osfsbuf", "osfstext", "submem")
+CHUNK_FTP_QUICK = {"ftp": None, "ftpbuf": 14, "ftptext": 14, "ftplist": 8}      # None: all sequences
+
+
+def chunk_pattern(n, salt=0):
+    """n ASCII bytes with a newline now and then (valid in every layer, text included)."""
+    unit = bytes(bytearray((0x30 + (i * 7 + salt) % 75) if (i + salt) % 61 else 10 for i in range(977)))
+    return (unit * (n // len(unit) + 1))[:n]
+
+
+def chunk_cases(kind, tier, seed):
+    from fs.constants import DEFAULT_CHUNK_SIZE
+    out = []
+    small = b"abc\ndef"
+    for c in (8192, DEFAULT_CHUNK_SIZE):
+        for d in (c - 1, c, c + 1, 2 * c + 5):
+            big = chunk_pattern(d, d % 7)
+            # truncate: growing / shrinking by d
+            out.append((small, [("open", "r+"), ("call", 0, ("truncate", len(small) + d)), ("call", 0, ("tell",)),
+                                ("call", 0, ("seek", 0, 2)), ("call", 0, ("seek", len(small) + d - 3, 0)),
+                                ("call", 0, ("read", 10)), ("call", 0, ("tell",))]))
+            out.append((big + small, [("open", "r+"), ("call", 0, ("seek", 2, 0)), ("call", 0, ("truncate", len(small))),
+                                      ("call", 0, ("tell",)), ("call", 0, ("seek", 0, 2)), ("call", 0, ("seek", 0, 0)),
+                                      ("call", 0, ("read", None))]))
+            # read(n) and seek targets across the boundary
+            out.append((big, [("open", "r"), ("call", 0, ("read", c - 1)), ("call", 0, ("tell",)), ("call", 0, ("read", 2)),
+                              ("call", 0, ("seek", min(c, d), 0)), ("call", 0, ("read", 3)), ("call", 0, ("tell",)),
+                              ("call", 0, ("seek", 0, 0)), ("call", 0, ("read", c + 1)), ("call", 0, ("tell",)),
+                              ("call", 0, ("seek", max(0, d - 2), 0)), ("call", 0, ("read", None)), ("call", 0, ("tell",)),
+                              ("call", 0, ("seek", 1, 0)), ("call", 0, ("read", d)), ("call", 0, ("tell",))]))
+            # one write of d bytes, then position queries, a relative seek, more writes, truncate at the position
+            tail = [("call", 0, ("write", big)), ("call", 0, ("tell",)), ("call", 0, ("seek", 0, 1)),
+                    ("call", 0, ("write", b"XY")), ("call", 0, ("tell",)), ("call", 0, ("seek", 0, 1)),
+                    ("call", 0, ("truncate", None)), ("call", 0, ("tell",)), ("call", 0, ("write", b"Z")),
+                    ("call", 0, ("seek", 0, 1)), ("call", 0, ("tell",))]
+            out.append((small, [("open", "w")] + tail))
+            out.append((small, [("open", "r+"), ("call", 0, ("seek", 0, 2))] + tail))
+            out.append((small, [("open", "a")] + tail))
+    if kind in CHUNK_FTP_QUICK and tier != "thorough" and CHUNK_FTP_QUICK[kind] is not None:
+        out = random.Random("%s-%d-chunks" % (kind, seed)).sample(out, CHUNK_FTP_QUICK[kind])
+    return out
+
+
+def append_cases(kind, tier, seed):
+    """Append handles after everything that can move the handle's position or the end of the file WITHOUT a seek right
+    before the write: the property says append mode ALWAYS writes at the end, and tell() afterwards is the end.  Every
+    position- or size-changing call of CALLS (and a second handle growing / shrinking the file) x {a, a+} x two
+    contents, followed by write / tell / relative seek / argument-less truncate / write."""
+    out = []
+    tail = [("call", 0, ("write", b"Q")), ("call", 0, ("tell",)), ("call", 0, ("seek", 0, 1)), ("call", 0, ("truncate", None)),
+            ("call", 0, ("tell",)), ("call", 0, ("write", b"R")), ("call", 0, ("tell",)), ("call", 0, ("seek", 0, 2))]
+    movers = [c for c in CALLS if c[0] in ("truncate", "seek", "read", "readline", "readlines")]
+    for content in (b"", b"abc\ndef"):
+        for mode in ("a", "a+"):
+            for c1 in movers:
+                # outside the compared domain (see in_domain): readline(0) through a handle that cannot read, seeks to a
+                # negative target relative to the position / the end
+                if (c1 == ("readline", 0) and "+" not in mode) or (c1[0] == "seek" and c1[1] < 0 and c1[2] in (1, 2)):
+                    continue
+                out.append((content, [("open", mode), ("call", 0, c1)] + tail))
+                out.append((content, [("open", mode), ("call", 0, ("write", b"xy")), ("call", 0, c1)] + tail))
+            # the file changes under the open handle through a second one (grown, then shrunk)
+            for other in (("write", b"ZZZ"), ("truncate", 1)):
+                out.append((content, [("open", mode), ("open", "r+"), ("call", 1, ("seek", 0, 2)), ("call", 1, other),
+                                      ("call", 1, ("seek", 0, 1))] + tail))
+    if kind.startswith("ftp") and tier != "thorough":
+        out = random.Random("%s-%d-append" % (kind, seed)).sample(out, 40 if kind == "ftp" else 12)
+    return out
+
+
 def _count_and_bytes(res):
     k, _, b = res.partition("/")
     return int(k[1:]), ([int(x) for x in b[1:].split(",")] if len(b) > 1 else [])
@@ -1136,6 +1213,35 @@ def boundary_kind(args):
                 bad.append(("%s handle vs io (buffer-type block): %s with a %s buffer" % (kind, call[0], call[1]),
                             (content, steps), got, expect))
         cases = cases + bcases
+    if kind in CHUNK_KINDS:
+        ccases = chunk_cases(kind, tier, seed)
+        stats["chunk_size_sequences"] = len(ccases)
+        for content, steps in ccases:
+            steps = domain(content, steps)
+            expect = b_ref_case(layer, content, steps, d)
+            try:
+                got = b_real_case(kind, content, steps, d, cache)
+            except Exception as e:
+                got = "EXC:" + type(e).__name__
+            if got != expect and not explained(content, steps, got, expect):
+                bad.append(("%s handle vs io (chunk-size block)" % kind, (content, steps), got, expect))
+        cases = cases + ccases
+    acases = append_cases(kind, tier, seed)
+    if archive:
+        acases = []     # (members of read archives cannot be opened for appending)
+    if layer == "text":
+        acases = []     # (text handles: seek/tell cookies and truncate at a cookie are the io text layer's, compared elsewhere)
+    stats["append_block_sequences"] = len(acases)
+    for content, steps in acases:
+        steps = domain(content, steps)
+        expect = b_ref_case(layer, content, steps, d)
+        try:
+            got = b_real_case(kind, content, steps, d, cache)
+        except Exception as e:
+            got = "EXC:" + type(e).__name__
+        if got != expect and not explained(content, steps, got, expect):
+            bad.append(("%s handle vs io (append block)" % kind, (content, steps), got, expect))
+    cases = cases + acases
     for o in cache.values():
         try:
             o.close()
@@ -1414,7 +1520,8 @@ def run(report, forced=None):
         seen.add(sig)
         payload = dict(kind="file-object-differs", comparison=what, content=c.decode("latin-1"),
                        steps=steps_json(s), observed=a, expected=b, theorem="Props/C16.v")
-        if what.endswith("(seek boundary block)") or "(buffer-type block)" in what:
+        if what.endswith("(seek boundary block)") or "(buffer-type block)" in what or what.endswith("(chunk-size block)") \
+                or what.endswith("(append block)"):
             payload["boundary_kind"] = what.split()[0]
         report.violation(payload)
     if vm_mism and not bad:
